@@ -190,8 +190,8 @@ static void gen_key(chist *h, vh_rng *r, unsigned g, int tweaked)
                   if (!vh_below(r, 3)) { vh_related(r, buf, h->pool + q->doff, n); o->cls = tweaked ? "set_tweaked_key(related to an earlier key)" : "set_key(related to an earlier key)"; }
                   else if (c->id != CIPH_MANTIS && !vh_below(r, 2)) {      /* the earlier key extended / cut by zero bytes to another accepted size */
                       unsigned m = q->dlen, lo = c->bb; while (m > lo && h->pool[q->doff + m - 1] == 0) --m;
-                      o->len = c->bb * (1 + vh_below(r, 3)); if (o->len < m) o->len = (m + c->bb - 1) / c->bb * c->bb; if (o->len > maxk) o->len = maxk;
-                      if (o->len >= m) { memset(buf, 0, sizeof(buf)); memcpy(buf, h->pool + q->doff, m); o->cls = tweaked ? "set_tweaked_key(an earlier key zero-extended or cut)" : "set_key(an earlier key zero-extended or cut)"; } } }
+                      unsigned nl = c->bb * (1 + vh_below(r, 3)); if (nl < m) nl = (m + c->bb - 1) / c->bb * c->bb; if (nl > maxk) nl = maxk;
+                      if (nl >= m) { o->len = nl; memset(buf, 0, sizeof(buf)); memcpy(buf, h->pool + q->doff, m); o->cls = tweaked ? "set_tweaked_key(an earlier key zero-extended or cut)" : "set_key(an earlier key zero-extended or cut)"; } } }
     }
     o->doff = pool_put(h, buf, o->len); o->dlen = o->len;
     placement(o, r, g);
